@@ -44,7 +44,7 @@ __CPROVER_frees(s)
 /* U2 the index entry of THIS session is removed (nothing is routed to a closed session) */ __CPROVER_ensures((__CPROVER_old(self->_peerIndex.has) && __CPROVER_old(self->_peerIndex.val) == CN_SID0) ==> !self->_peerIndex.has)
 /* I1 invariant INVa preserved */ __CPROVER_ensures((self->_peerIndex.has && self->_peerIndex.val == GSID) ==> self->_sessions.has)
 /* F1a connected client socket closed exactly once */ __CPROVER_ensures(CN_CLIENT ==> (G_close_calls == __CPROVER_old(G_close_calls) + 1 && G_close_fd == CN_FD0))
-/* F1b unregistered from epoll exactly once, before the close */ __CPROVER_ensures(CN_CLIENT ==> (G_delEpoll_calls == __CPROVER_old(G_delEpoll_calls) + 1 && G_delEpoll_fd == CN_FD0 && !G_delEpoll_closes_before))
+/* F1b unregistered from epoll exactly once, before the close */ __CPROVER_ensures(CN_CLIENT ==> (G_delEpoll_calls == __CPROVER_old(G_delEpoll_calls) + 1 && G_delEpoll_fd == CN_FD0 && G_delEpoll_closes_before == __CPROVER_old(G_close_calls)))
 /* F1c its tag erased, no other tag touched */ __CPROVER_ensures(CN_CLIENT ==> (CN_FD0 == GFD ? !self->_tags.has : self->_tags.has == __CPROVER_old(self->_tags.has)))
 /* F2 listener-side session: the shared listener socket is neither closed nor unregistered (C06: never silences the others) */ __CPROVER_ensures(!CN_CLIENT ==> (G_close_calls == __CPROVER_old(G_close_calls) && G_delEpoll_calls == __CPROVER_old(G_delEpoll_calls) && self->_tags.has == __CPROVER_old(self->_tags.has)))
 /* L1 every lock released; the application callback ran with no engine lock held */ __CPROVER_ensures(IORA_NO_LOCK_HELD(self) && (CN_CBSET ==> !G_closeCb_locked))
